@@ -12,6 +12,7 @@ def run(ctx):
     # members) never turns into items of the enclosing structures; the same restructured tree means the same in XML and JSON
     shapes.judge_c04_lenient(ctx, rows, bases)
     shapes.judge_c04_cross(ctx, rows)
+    shapes.judge_value_missing(ctx, rows)
     ctx.finish("model_checking", {
         "evaluations": n + 3 * nt,
         "text_shape_cases": nt,
